@@ -160,6 +160,8 @@ def axis_and_trans(ctx, spec, k, tag):
     axis = O.random_axes(rng, 1)[0]
     if k == 0:
         axis = np.array([1.0, 0, 0])
+    if k == 1:
+        axis = np.array([-1.0, 0, 0])
     nt = spec.na - (3 if spec.has_rotation else 1)
     T = rng.uniform(-1, 1, nt)
     return axis, T
@@ -168,7 +170,9 @@ def axis_and_trans(ctx, spec, k, tag):
 def alg_vec(spec, axis, T, ths):
     ths = np.asarray(ths, dtype=float)
     if isinstance(spec, SE2Spec):
-        return np.concatenate([np.tile(T, (len(ths), 1)), ths[:, None]], axis=1)
+        # axis[0] carries the sense of rotation for the planar group: both signs are exercised
+        sgn = 1.0 if axis[0] >= 0 else -1.0
+        return np.concatenate([np.tile(T, (len(ths), 1)), sgn * ths[:, None]], axis=1)
     return np.concatenate([np.tile(T, (len(ths), 1)), axis[None, :] * ths[:, None]], axis=1)
 
 
